@@ -121,14 +121,24 @@ Fixpoint match_unit (us : list text) (r : text) : option text :=
                 end
   end.
 
+(* the optional sign and the optional fraction of the number group of _LENGTH_RE *)
+Definition split_sign (s : text) : bool * text :=
+  match s with
+  | c :: r => if c =? 43 then (false, r) else if c =? 45 then (true, r) else (false, s)
+  | [] => (false, s)
+  end.
+Definition split_frac (r1 : text) : text * text :=
+  match r1 with
+  | c :: r' => if c =? 46 then let '(f, r'') := span_digits r' in match f with [] => ([], r1) | _ :: _ => (f, r'') end
+               else ([], r1)
+  | [] => ([], r1)
+  end.
+
 (* parse_length + StyleProperties.ttml_length_to_model *)
 Definition parse_len (s : text) : option len :=
-  let '(neg, r0) := match s with 43 :: r => (false, r) | 45 :: r => (true, r) | _ => (false, s) end in
+  let '(neg, r0) := split_sign s in
   let '(ip, r1) := span_digits r0 in
-  let '(fp, r2) := match r1 with
-                   | 46 :: r' => let '(f, r'') := span_digits r' in match f with [] => ([], r1) | _ :: _ => (f, r'') end
-                   | _ => ([], r1)
-                   end in
+  let '(fp, r2) := split_frac r1 in
   match match_unit length_units r2 with
   | None => None
   | Some u =>
